@@ -6,7 +6,7 @@ import ast
 from sa import flow
 from sa.model import AnalysisError, dotted, unparse
 from sa.rules import LEVEL_TEXT, rule
-from sa.rules.util import is_self_attr, iter_body_nodes, one_local, pfind, pmatch, qual
+from sa.rules.util import closure_functions, is_self_attr, iter_body_nodes, one_local, pfind, pmatch, qual
 
 LEVEL_TEXT["C02"] = (
     "Decides structural necessary conditions of the clause 'irrespective of how differently the inputs of a multi-input "
@@ -427,7 +427,15 @@ def _ndim_only(test, target):
 )
 def r02c(ctx):
     model = ctx.model
-    mod, fn = model.func("_expr", "are_co_aligned")
+    mod, entry = model.func("_expr", "are_co_aligned")
+    # the walk may live in are_co_aligned itself or in a helper it calls
+    scope = closure_functions(model, mod, None, entry, depth=1)
+    fn = None
+    for _, _, f in scope:
+        if any(isinstance(w, ast.While) for w in ast.walk(f)) and any(isinstance(n, ast.If) and pmatch("isinstance(V_e, IO)", n.test) is not None for n in ast.walk(f)):
+            fn = f
+    if fn is None:
+        raise AnalysisError("anchor vanished: the ancestor walk of are_co_aligned (a while loop over a work list with an isinstance(e, IO) arm)")
     defs = flow.Defs(fn)
     ext = []
     for pt in flow.walk(fn):
@@ -481,7 +489,7 @@ def r02c(ctx):
         "sources and every other non-partitionwise node are ancestors" if else_ok and io_ok else "a source / an unclassified node is no longer recorded as an ancestor: inputs that come from it are never found to differ",
     )
     # identity of an ancestor
-    toks = [n for n in ast.walk(fn) if isinstance(n, ast.Call) and dotted(n.func) == "_tokenize_partial"]
+    toks = [n for _, _, f in scope for n in ast.walk(f) if isinstance(n, ast.Call) and dotted(n.func) == "_tokenize_partial"]
     for t in toks:
         ign = set()
         if len(t.args) > 1:
@@ -499,12 +507,12 @@ def r02c(ctx):
             f"sources are compared ignoring {sorted(extra)}: reads that differ there (other rows / partitions) count as the same parent" if extra else f"sources compared up to {sorted(ign)}",
         )
     # verdict
-    rets = [r for r in ast.walk(fn) if isinstance(r, ast.Return) and r.value is not None]
+    rets = [r for r in ast.walk(entry) if isinstance(r, ast.Return) and r.value is not None]
     vd = [ast.unparse(r.value).replace(" ", "") for r in rets]
     good = bool(rets) and all(pmatch("len(V_u) <= 1", r.value) is not None or pmatch("len(V_u) < 2", r.value) is not None for r in rets)
     (ctx.ok if good else ctx.bad)(
         "_expr.are_co_aligned:verdict",
-        mod.loc(rets[0]) if rets else mod.loc(fn),
+        mod.loc(rets[0]) if rets else mod.loc(entry),
         "co-aligned iff at most one distinct ancestor" if good else f"verdict is `{vd}`: more than one distinct ancestor may not count as co-aligned",
     )
     ctx.floor("are_co_aligned obligations", len(ext) + len(toks) + 2, 4)
